@@ -27,6 +27,7 @@ type HarnessCfg struct {
 	Sched            string `json:"sched"`
 	Preempt          int    `json:"preempt"`
 	SelectAll        bool   `json:"select_all"`
+	BlockChoice      bool   `json:"block_choice"` // Mode B: also explore every choice at blocking points
 	MapOrder         string `json:"map_order"`
 	Race             bool   `json:"race"`
 	TimeoutMs        int    `json:"timeout_ms"`
